@@ -459,40 +459,71 @@ func fieldName(t types.Type, idx int) string {
 	return fmt.Sprintf("#%d", idx)
 }
 
-// path gives a canonical access path for a value or address. Two values with
-// the same path denote the same cell / the same load of that cell as long as
-// no store intervenes (callers check stores where it matters).
-func path(v ssa.Value) string {
+// path gives an access path for a value or address that is unique within its
+// function (identity): two values with the same path denote the same cell / the
+// same load of that cell as long as no store intervenes (callers check stores
+// where it matters).
+func path(v ssa.Value) string { return pathMode(v, false) }
+
+// canonPath renders the same access path for comparison with expected
+// descriptions: parameters by position, locals and captured variables by type,
+// so that renaming identifiers changes nothing.
+func canonPath(v ssa.Value) string { return pathMode(v, true) }
+
+func pathMode(v ssa.Value, canon bool) string {
 	switch x := v.(type) {
 	case *ssa.Parameter:
-		return x.Name()
+		return paramName(x)
 	case *ssa.FreeVar:
+		if canon {
+			t := x.Type()
+			if p, ok := t.(*types.Pointer); ok {
+				t = p.Elem()
+			}
+			return "cap<" + shortType(t) + ">"
+		}
 		return x.Name()
 	case *ssa.Global:
 		return x.Name()
 	case *ssa.Alloc:
-		if x.Comment != "" {
-			return "&" + x.Comment
+		if canon {
+			// a spilled parameter keeps the parameter's positional name
+			var spilled *ssa.Parameter
+			nst := 0
+			for _, r := range refs(x) {
+				if st, ok := r.(*ssa.Store); ok && st.Addr == ssa.Value(x) {
+					nst++
+					spilled, _ = st.Val.(*ssa.Parameter)
+				}
+			}
+			if nst == 1 && spilled != nil {
+				return "&" + paramName(spilled)
+			}
+			t := x.Type().(*types.Pointer).Elem()
+			if x.Comment != "" && x.Comment != "complit" && x.Comment != "varargs" && x.Comment != "slicelit" {
+				return "&var<" + shortType(t) + ">"
+			}
+			return "&lit<" + shortType(t) + ">"
 		}
 		return "&" + x.Name()
 	case *ssa.UnOp:
 		if x.Op == token.MUL {
-			p := path(x.X)
+			p := pathMode(x.X, canon)
 			if strings.HasPrefix(p, "&") {
 				return p[1:]
 			}
 			return "*" + p
 		}
 	case *ssa.FieldAddr:
-		p := path(x.X)
+		p := pathMode(x.X, canon)
 		if strings.HasPrefix(p, "&") {
 			p = p[1:]
 		}
 		return "&" + p + "." + fieldName(x.X.Type(), x.Field)
 	case *ssa.Field:
-		return path(x.X) + "." + fieldName(x.X.Type(), x.Field)
+		return pathMode(x.X, canon) + "." + fieldName(x.X.Type(), x.Field)
 	case *ssa.ChangeType:
-		return path(x.X)
+		return pathMode(x.X, canon)
 	case *ssa.Const:
 		if x.Value == nil {
 			return "nil"
@@ -500,6 +531,25 @@ func path(v ssa.Value) string {
 		return x.Value.ExactString()
 	}
 	return "%" + v.Name()
+}
+
+// paramName renders a parameter positionally: "recv" for a method receiver,
+// "arg<i>" otherwise — so renaming parameters does not change any description.
+func paramName(p *ssa.Parameter) string {
+	fn := p.Parent()
+	idx := -1
+	for k, q := range fn.Params {
+		if q == p {
+			idx = k
+		}
+	}
+	if fn.Signature.Recv() != nil {
+		if idx == 0 {
+			return "recv"
+		}
+		idx--
+	}
+	return fmt.Sprintf("arg%d", idx)
 }
 
 // constInt returns the integer value of a constant operand.
